@@ -288,6 +288,10 @@ func parseRevokedCertificateList(issuer *pkix.RDNSequence, reader hashing.Hashin
 		if err != nil {
 			return err
 		}
+		err = extensionsupport.CheckForCriticalUnhandledCRLEntryExtensions(revokedCert.Extensions)
+		if err != nil {
+			return err
+		}
 		err = processor.InsertRevokedCertificate(&CRLEntry{
 			issuer,
 			revokedCert,
